@@ -1248,7 +1248,17 @@ func selfTest(c *vlib.Check, ts []*tracedScenario, devs map[*tracedScenario][]st
 			done["closefn-twice"] = true
 			mk(t, "closefn-twice", append(append(append([]Event{}, evs[:i+1]...), evs[i]), evs[i+1:]...))
 		}
-		if i := idx("CRecv", "complete"); i >= 0 && !done["complete-twice"] {
+		startsOf := func(id string) int {
+			n := 0
+			for _, ev := range evs {
+				if ev.E == "CSend" && ev.M == "start" && ev.ID == id {
+					n++
+				}
+			}
+			return n
+		}
+		// (only where the id was started once: otherwise the second completion may belong to the other instance)
+		if i := idx("CRecv", "complete"); i >= 0 && startsOf(evs[i].ID) == 1 && !done["complete-twice"] {
 			done["complete-twice"] = true
 			mk(t, "complete-twice", append(append(append([]Event{}, evs[:i+1]...), evs[i]), evs[i+1:]...))
 		}
